@@ -356,6 +356,7 @@ func (e *episode) runSide(sr sideRun) {
 			MainBranch: append([]string{}, mainHex...), SideBranch: append([]string{}, sideHex...),
 			Real: strings.Join(realLog, " | "), Ref: refLog}
 	}
+	defer func() { e.lastDoc = doc; setDoc(doc) }() // watchdog.go: what this episode's real chain was given last
 	// the active chain grows by T1..Td — ordinary blocks, all four judges
 	for i := 0; i < sr.depth; i++ {
 		raw := sr.mkMain(i)
@@ -416,9 +417,21 @@ func (e *episode) runSide(sr sideRun) {
 				refS.apply(sp, ad)
 			}
 		}
+		e.lastDoc = doc
+		setDoc(doc)
 		res := e.submit(raw)
 		realLog = append(realLog, res.String())
 		r.Hit("reorg-side-submit:" + errClass(res.String()))
+		if res.Panic != "" {
+			// never a legitimate way to refuse a branch: the node would crash (and, recovered as here, may hold a lock for ever)
+			e.sawPanic(res.Panic)
+			if firstBad < 0 {
+				firstBad = i
+			}
+			r.PropFail("reorg-panic", fmt.Sprintf("side-branch scenario %q (fork depth %d, real: %s; reference: %s): Chain.CheckBlock+AcceptBlock panicked on side block %d: %s", sr.kind, sr.depth, strings.Join(realLog, " | "), refLog, i+1, res.Panic), doc())
+			e.dead = true
+			return
+		}
 		lastHash = bl.Hash
 		parent = e.nodeOf(bl.Hash)
 		if i < sr.depth {
